@@ -104,6 +104,9 @@ def scan(source: str, callback: callable):
             if state.start == -1 and state.property_start == -1:
                 # No consumed selector, emit empty value as selector start
                 state.start = state.end = scanner.pos
+            elif state.property_start == -1 and state.property_delimiter != -1:
+                # Selector that starts with a colon (`:root`): the colon belongs to it
+                state.start = state.property_delimiter
 
             if state.property_start != -1:
                 # Now we know that value that looks like property name-value pair
@@ -125,7 +128,8 @@ def scan(source: str, callback: callable):
             # Since I can’t easily detect `:` meaning for sure, we’ll update state
             # to accumulate possible property name-value pair or selector
             if state.property_start == -1:
-                state.property_start = state.start
+                # A name that follows a leading colon (`:a:b`) starts with that colon
+                state.property_start = state.property_delimiter if state.property_delimiter != -1 and state.start != -1 else state.start
             if state.end != -1:
                 state.property_end = state.end
             state.property_delimiter = scanner.pos - 1
